@@ -72,7 +72,21 @@ func conflictSet(i int64, seed int64) []file {
 	r := prng.For(seed, "C05", "conflict", i)
 	pick := func(xs ...string) string { return xs[r.Intn(len(xs))] }
 	var fs []file
-	switch i % 21 {
+	switch i % 23 {
+	case 22: // deviations of several modules whose targets are missing and whose paths differ only in how a number is written ("/t:1", "/t:01"): the errors have no position, their texts are equal as numbers field by field; equal errors must still be dropped and the rest must have one order
+		p := []string{"/t:1", "/t:01", "/t:1", "/t:001", "/t:01"}
+		r.Shuffle(len(p), func(a, b int) { p[a], p[b] = p[b], p[a] })
+		fs = append(fs, file{"t.yang", "module t { namespace \"urn:t\"; prefix t; container c { leaf l { type string; } } }"})
+		for k := 0; k < 3+r.Intn(3); k++ {
+			fs = append(fs, file{fmt.Sprintf("d%d.yang", k), fmt.Sprintf("module d%d { namespace \"urn:d%d\"; prefix d%d; import t { prefix t; }\n  deviation \"%s\" { deviate %s }\n}\n", k, k, k, p[k], pick("not-supported;", "add { default x; }"))})
+		}
+	case 21: // two submodules that are included only through other submodules define a typedef of one name; the module refers to it without being able to see either: the outcome (an error) is the same every time
+		ta, tb := pick("int8", "string"), pick("uint8", "boolean")
+		fs = append(fs, file{"m.yang", "module m { namespace \"urn:m\"; prefix m; include s1; include s2;\n  leaf x { type t; }\n}\n"})
+		fs = append(fs, file{"s1.yang", "submodule s1 { belongs-to m { prefix m; } include n1; leaf a { type string; } }"})
+		fs = append(fs, file{"s2.yang", "submodule s2 { belongs-to m { prefix m; } include n2; leaf b { type string; } }"})
+		fs = append(fs, file{"n1.yang", "submodule n1 { belongs-to m { prefix m; } typedef t { type " + ta + "; default \"1\"; } }"})
+		fs = append(fs, file{"n2.yang", "submodule n2 { belongs-to m { prefix m; } typedef t { type " + tb + "; } }"})
 	case 20: // two revisions of a module, and an error that arises in the tree of one of them only while augments are merged (the augment of a module that imports that revision by date brings a node the target has already): it is reported every time, whichever revision the walk over the modules meets first
 		rv := pick("2020-01-01", "2021-01-01")
 		fs = append(fs, file{"t-2020.yang", "module t { namespace \"urn:t\"; prefix t; revision 2020-01-01;\n  container c { leaf x { type string; } }\n}\n"})
@@ -603,7 +617,7 @@ func CLI(j *job.Job, s *job.Sink) {
 			disk := []file{{"zzbroken.yang", broken},
 				{"zzmain.yang", "module zzmain {\n  namespace \"urn:zzmain\";\n  prefix zm;\n  import zzdep { prefix zd; }\n  leaf l { type zd:t; }\n}\n"},
 				{"zzmain2.yang", "module zzmain2 {\n  namespace \"urn:zzmain2\";\n  prefix zm2;\n  include zzsubm;\n  leaf l2 { type st; }\n}\n"}}
-			for _, f := range append(disk, file{"zzdep.yang", "module zzdep {\n  namespace \"urn:zzdep\";\n  prefix zd;\n  typedef t { type int8; }\n}\n"}, file{"zzsubm.yang", "submodule zzsubm {\n  belongs-to zzmain2 { prefix zm2; }\n  typedef st { type uint8; }\n}\n"}) {
+			for _, f := range append(disk, file{"zzdep.yang", "module zzdep {\n  namespace \"urn:zzdep\";\n  prefix zd;\n  typedef t { type int8; }\n}\nsubmodule zzorph {\n  belongs-to zznone { prefix zn; }\n  import zzq { prefix q; }\n  container oc { uses q:g; }\n}\n"}, file{"zzq.yang", "module zzq {\n  namespace \"urn:zzq\";\n  prefix zq;\n  grouping g { leaf gl { type int8; } }\n}\n"}, file{"zzsubm.yang", "submodule zzsubm {\n  belongs-to zzmain2 { prefix zm2; }\n  typedef st { type uint8; }\n}\n"}) {
 				os.WriteFile(filepath.Join(sub, f.Name), []byte(f.Text), 0o644)
 			}
 			outs := map[string]int{}
@@ -619,6 +633,12 @@ func CLI(j *job.Job, s *job.Sink) {
 				}
 				sort.Strings(rerr)
 				errs := ms.Process()
+				if k%2 == 1 {
+					// (every other time the set is processed twice: what the run fetches - the
+					// file of zzdep also holds a submodule that nothing includes, with an import
+					// of its own - is linked by that run, so the second one changes nothing)
+					errs = ms.Process()
+				}
 				outs[strings.Join(rerr, "\n")+"\n"+dump.Set(ms, errs, true)]++
 				s.Count("executions", 1)
 			}
